@@ -383,6 +383,20 @@ def run(ctx):
                 ctx.count('pool_messages_with_221_or_replication')
             except Exception:
                 pass
+        # messages whose walk is refused WHILE AN OPERATOR IS IN FORCE when a descriptor inside the operator's range is replaced by an
+        # undefined one (201/202, 203 being defined, 204, 207, 208; compressed layout, where nothing is re-initialised per subset):
+        # whatever the aborted walk had switched on is gone for the messages that follow, on this and on every other decoder
+        from mon.gen import failures as _failures
+        for oi in (ctx.shard % 6, (ctx.shard + 3) % 6):
+            try:
+                k += 1
+                om = R.build_message(_failures.TEMPLATES[1 + oi], B33, D33, R.Policy(rng), rng.choice([2, 3]), True, rng.choice([3, 4]),
+                                     dict(master_table_version=33, update_sequence_number=k % 256, data_category=20 + oi))
+                dec.process(om.bytes)
+                pool.append(om)
+                ctx.count('pool_messages_compressed_with_operator_ranges')
+            except Exception:
+                pass
         # a message whose character payload holds the text 7777 followed by a complete (smaller) message: when IT is damaged and
         # skipped, nothing inside it may be delivered
         for attempt in range(4):
